@@ -24,6 +24,7 @@ TABLES = {
 CAPDATA_FIELD_ROLES = {"cap_name": NAME, "base_url": URL, "type": TYPE}
 
 # state-field owner table (DESIGN.md A.1)
+OWNER_NAMES = {"__init__", "update_caps", "register_cap", "resolve_cap"}
 CAPS_OWNERS = {"ProxiedRegion.__init__", "ProxiedRegion.update_caps", "ProxiedRegion.register_cap",
                "ProxiedRegion.resolve_cap"}
 
@@ -95,7 +96,7 @@ class Model:
         ProxiedRegion that stores entries into self._caps_url_lookup."""
         if getattr(self, "_rebuild", None) is None:
             cands = []
-            for m in self.region.methods.values():
+            for m in self.family_methods():
                 if m.name == "__init__":
                     continue
                 if any(st.path == "self._caps_url_lookup" and st.kind in ("setitem", "mutcall") and
@@ -119,8 +120,52 @@ class Model:
             return True
         return any(t.startswith("hippolyzer.lib.proxy") for t in mod.imports.values())
 
+    def family(self):
+        """ProxiedRegion, the repo classes it inherits from inside the proxy package (mixins), and its subclasses."""
+        if getattr(self, "_family", None) is None:
+            fam = [c for c in self.repo.mro(self.region) if c == self.region or c.module.rel.startswith("hippolyzer/lib/proxy/")]
+            for c in self.repo.subclasses(self.region, strict=True):
+                if c not in fam:
+                    fam.append(c)
+            self._family = fam
+        return self._family
+
+    def family_methods(self):
+        seen, out = set(), []
+        for c in self.family():
+            for m in c.methods.values():
+                if m.full not in seen:
+                    seen.add(m.full)
+                    out.append(m)
+        return out
+
     def in_region_class(self, fi) -> bool:
-        return fi.cls is not None and any(c == self.region for c in self.repo.mro(fi.cls))
+        return fi.cls is not None and any(c == fi.cls for c in self.family())
+
+    def owner_roots(self, fi, seen=()) -> Optional[Set[str]]:
+        """Names of the owner methods (__init__, update_caps, register_cap, resolve_cap) through which `fi` runs:
+        itself if it is one, or - for a private helper only ever called as self.<helper>() from owned code - theirs.
+        None when it is reachable otherwise."""
+        fi = top_fn(fi)
+        if not self.in_region_class(fi):
+            return None
+        if fi.name in OWNER_NAMES:
+            return {fi.name}
+        if fi in seen:
+            return set()
+        from .common import callers_of
+        callers = callers_of(self.repo, fi.name)
+        if not callers:
+            return None
+        roots: Set[str] = set()
+        for h, c in callers:
+            if not (isinstance(c.func, ast.Attribute) and isinstance(c.func.value, ast.Name) and c.func.value.id == "self"):
+                return None
+            r = self.owner_roots(h, tuple(seen) + (fi,))
+            if r is None:
+                return None
+            roots |= r
+        return roots
 
     def is_caps_attr(self, node, fi) -> bool:
         if not (isinstance(node, ast.Attribute) and node.attr == "caps"):
@@ -467,7 +512,7 @@ def _interesting(model: Model, fi) -> bool:
         return False
     if not model.module_aware(fi.module):
         return False
-    if model.in_region_class(fi) and fi.module.rel == REG:
+    if model.in_region_class(fi):
         return True
     for n in walk(fi.node, into_defs=True):
         if model.is_caps_attr(n, fi):
@@ -719,7 +764,7 @@ def r2(ctx, model: Model):
     ctx.ob("C16.R2", "CapsMultiDict.add pops and re-inserts under the key being added", keys_ok, f.where)
     # the caps table is a CapsMultiDict
     init = repo.fn("ProxiedRegion.__init__")
-    ctor = [s for s in stores(init.node) if s.path == "self.caps" and s.kind == "assign"]
+    ctor = [s for m in model.family_methods() for s in stores(m.node) if s.path == "self.caps" and s.kind == "assign"]
     ctx.ob("C16.R2", "ProxiedRegion.caps is a CapsMultiDict", len(ctor) == 1 and isinstance(ctor[0].value, ast.Call) and
            call_attr(ctor[0].value) == "CapsMultiDict", init.where, "a plain MultiDict appends: lookups by name return the oldest grant")
     # the name -> URL view keeps every entry in caps order (a dict / set in between collapses repeated names to the
@@ -767,10 +812,10 @@ def r2(ctx, model: Model):
                    f"skipped depending on {bad}: an older, different URL can stay in front of a re-granted one")
         elif kind == "mutcall" and method in ("extend", "update", "setdefault"):
             # re-insertion of popped values in resolve_cap is checked by R4; anything else bypasses prepend
-            if q != "ProxiedRegion.resolve_cap":
+            if model.owner_roots(fi) != {"resolve_cap"}:
                 ctx.ob("C16.R2", f"{q}: `{norm(node)}` grants through CapsMultiDict.add", False, ctx.w(fi, node),
                        "extend/update/setdefault append after existing values")
-        elif kind == "setitem" and q != "ProxiedRegion.__init__":
+        elif kind == "setitem" and model.owner_roots(fi) != {"__init__"}:
             ctx.ob("C16.R2", f"{q}: `{norm(node)}` grants through CapsMultiDict.add", False, ctx.w(fi, node),
                    "item assignment replaces every earlier grant of that name: their URLs no longer resolve")
     ctx.floor("C16.R2", "grant sites (caps.add)", n, 1)
@@ -802,6 +847,14 @@ def caps_mutations(model: Model):
     for fi in model.repo.all_funcs:
         if fi.parent_fn is not None or not model.module_aware(fi.module):
             continue
+        out.extend(_mutations_in(model, fi))
+    model._muts = out
+    return out
+
+
+def _mutations_in(model: Model, fi):
+    out = []
+    if True:
         aliases = set()
         for st in stores(fi.node):
             if st.kind == "assign" and isinstance(st.target, ast.Name) and st.value is not None and \
@@ -818,7 +871,6 @@ def caps_mutations(model: Model):
                 out.append((fi, enclosing_stmt(n), "setitem" if isinstance(n.ctx, ast.Store) else "delitem", None))
             elif isinstance(n, ast.Attribute) and isinstance(n.ctx, (ast.Store, ast.Del)) and model.is_caps_attr(n, fi):
                 out.append((fi, enclosing_stmt(n), "assign", None))
-    model._muts = out
     return out
 
 
@@ -877,30 +929,50 @@ def r3(ctx, model: Model):
                        "index from scratch over all caps; no table is resized while iterated")
     muts = caps_mutations(model)
     rebuild = model.rebuild_method()
-    lookup_owners = {"ProxiedRegion.__init__", rebuild.qual}
+    lookup_owners = {repo.fn("ProxiedRegion.__init__").qual, rebuild.qual}
     ctx.floor("C16.R3", "mutations of ProxiedRegion.caps", len(muts), 3)
-    cfgs: Dict[str, CFG] = {}
-    for fi, node, kind, method in muts:
-        q = top_fn(fi).qual
+    from .c18 import inline_self_calls
+
+    def freshness(fi, node, kind, method, q):
         label = f"{kind}{'.' + method if method else ''} `{norm(node)}`"
-        ctx.ob("C16.R3", f"caps written in {q}: {label}", q in CAPS_OWNERS and fi.module.rel == REG, ctx.w(fi, node),
-               "region.caps is mutated outside ProxiedRegion's owner methods (the reverse index cannot follow)")
         cfg = cfgs.setdefault(fi.full, CFG(fi.node))
         starts = cfg.stmt_nodes_containing(node) if not isinstance(node, ast.stmt) else cfg.nodes_for(node)
         if not starts:
             raise AnalysisError(f"C16.R3: mutation `{norm(node)}` not found in the CFG of {q}")
         rn = _recalc_nodes(cfg, rebuild.name)
         stale = None
-        for s in starts:
-            if s in rn:
+        for s_ in starts:
+            if s_ in rn:
                 continue
-            path = cfg.witness_path(s, lambda n: n is cfg.exit, avoid=lambda n: n in rn, exc=False)
+            path = cfg.witness_path(s_, lambda n: n is cfg.exit, avoid=lambda n: n in rn, exc=False)
             if path is not None:
-                stale = cfg.describe_path([s] + path)
+                stale = cfg.describe_path([s_] + path)
                 break
         ctx.ob("C16.R3", f"{q}: {label} is followed by the index rebuild on every path", stale is None, ctx.w(fi, node),
                "the URL -> cap index is stale when the function returns: resolve_cap misses the new URL or still "
                "resolves a removed one", path=stale)
+    cfgs: Dict[str, CFG] = {}
+    roots_to_check = {}
+    for fi, node, kind, method in muts:
+        q = top_fn(fi).qual
+        label = f"{kind}{'.' + method if method else ''} `{norm(node)}`"
+        roots = model.owner_roots(fi)
+        ctx.ob("C16.R3", f"caps written in {q}: {label}", roots is not None and bool(roots), ctx.w(fi, node),
+               "region.caps is mutated outside ProxiedRegion's owner methods (the reverse index cannot follow)")
+        if roots and top_fn(fi).name not in OWNER_NAMES:
+            # a private helper of owners: its writes are checked where the owners run it
+            for r in roots:
+                roots_to_check[r] = True
+            continue
+        if roots:
+            roots_to_check[top_fn(fi).name] = True
+            continue
+        freshness(fi, node, kind, method, q)
+    for rname in sorted(roots_to_check):
+        real = repo.fn(f"ProxiedRegion.{rname}")
+        inl = inline_self_calls(repo, real, exclude=(rebuild.name,))
+        for fi, node, kind, method in _mutations_in(model, inl):
+            freshness(inl, node, kind, method, f"ProxiedRegion.{rname}")
     # lookup ownership
     n_l = 0
     for fi in repo.all_funcs:
@@ -911,7 +983,7 @@ def r3(ctx, model: Model):
                     (st.kind == "assign" and st.path.endswith("._caps_url_lookup")):
                 n_l += 1
                 ctx.ob("C16.R3", f"_caps_url_lookup written in {fi.qual}: {st.kind}{'.' + st.method if st.method else ''}",
-                       fi.qual in lookup_owners, ctx.w(fi, st.node), "the reverse index is written outside its rebuild method")
+                       fi.qual in lookup_owners or model.owner_roots(fi) == {"__init__"}, ctx.w(fi, st.node), "the reverse index is written outside its rebuild method")
     ctx.floor("C16.R3", "writes of _caps_url_lookup", n_l, 2)
     # rebuild method shape
     rf = rebuild
@@ -934,8 +1006,8 @@ def r3(ctx, model: Model):
         cond = [norm(e) for e, _ in facts(s.node, rf.node)]
         ctx.ob("C16.R3", "index rebuild indexes every (name, value) of caps.items()", over_all and not cond, ctx.w(rf, s.node),
                f"index entry written under conditions {cond}" if cond else "the fill is not a loop over self.caps.items()")
-    for q in sorted(CAPS_OWNERS | lookup_owners | {"CapsMultiDict.add", "ProxiedRegion.register_wrapper_cap",
-                                                   "ProxiedRegion.register_proxy_cap", "Session.resolve_cap"}):
+    for q in sorted(CAPS_OWNERS | {f"ProxiedRegion.{rebuild.name}", "CapsMultiDict.add", "ProxiedRegion.register_wrapper_cap",
+                               "ProxiedRegion.register_proxy_cap", "Session.resolve_cap"}):
         iteration_mutations(ctx, "C16.R3", repo, repo.fn(q))
 
 
@@ -1090,6 +1162,8 @@ def _meta_aliases(body) -> Dict[str, Any]:
     """local name -> constant key, for `name = flow.metadata[key]` (also chained `name = flow.metadata[key] = []`)."""
     out = {}
     for n in walk(body):
+        if isinstance(n, ast.AnnAssign) and n.value is not None:
+            n = ast.Assign(targets=[n.target], value=n.value)
         if isinstance(n, ast.Assign):
             names = [t.id for t in n.targets if isinstance(t, ast.Name)]
             subs = [t for t in n.targets if isinstance(t, ast.Subscript)] + ([n.value] if isinstance(n.value, ast.Subscript) else [])
@@ -1232,6 +1306,15 @@ def r5(ctx, model: Model):
     upd = [c for c in find_calls(rbody, "update_caps") if c.args and ap(c.args[0]) == mp]
     ctx.ob("C16.R5", "seed response: the region learns the simulator's grants (update_caps(map))", len(upd) == 1, ctx.w(rs, rb))
     un = {x for c in upd for x in cfg.stmt_nodes_containing(c)}
+    # nothing that can fail on request-side state runs before the region has learnt the grants
+    for n in walk(rbody):
+        if isinstance(n, ast.Subscript) and isinstance(n.ctx, ast.Load) and ap(n.value) == "flow.metadata" and \
+                isinstance(n.slice, ast.Constant):
+            mn = cfg.stmt_nodes_containing(n)
+            before = bool(un) and any(u in cfg.reachable(mn, exc=False) for u in un)
+            ctx.ob("C16.R5", f"seed response: `{norm(n)}` is read only after update_caps(map)", not before, ctx.w(rs, n),
+                   "the key is absent when the request handler failed part-way; the KeyError is swallowed by the enclosing "
+                   "handler and the simulator's grants are then never recorded for the region")
     resp_keys: Set[str] = set()
     _metadata_keys(walk(rbody), resp_keys)
     ctx.ob("C16.R5", "seed rewrite: request and response use the same metadata key for recorded names",
@@ -1402,7 +1485,7 @@ def r6(ctx, model: Model):
     if model.api_param_roles.get("register_cap", [])[:3] != [NAME, URL, TYPE]:
         ctx.note("C16.R6: register_cap's parameter roles are inconsistent (reported by C16.R1); minted URLs not analysed")
         return
-    for m in sorted(model.region.methods.values(), key=lambda m: m.qual):
+    for m in sorted(model.family_methods(), key=lambda m: m.qual):
         regs = [c for c in find_calls(m.node, "register_cap") if isinstance(c.func, ast.Attribute)]
         if not regs:
             continue
@@ -1682,7 +1765,7 @@ def r8(ctx, model: Model):
         if not (isinstance(v, ast.Tuple) and len(v.elts) == 2):
             continue
         url_e = v.elts[1]
-        if q == "ProxiedRegion.register_cap" and isinstance(url_e, ast.Name) and url_e.id == url_param:
+        if top_fn(fi).name == "register_cap" and model.in_region_class(fi) and isinstance(url_e, ast.Name) and url_e.id == url_param:
             callee_guard = _known_nonempty(fi, site, url_e)
             continue
         n += 1
